@@ -16,7 +16,9 @@ RULE = ("random regex ASTs (depth <=4; symbols of 1-3 characters, escaped operat
         "through the CFG membership oracle, union/concatenate/kleene_star and the str() round trip through the "
         "equivalence oracle. Non-trivial: AST with >=2 operators of >=2 kinds.")
 LEVEL = "proof"
-THEOREMS = ["Pfl.RegexReader.parse_repr",
+THEOREMS = ["Pfl.Rx.toCFG_lang",
+            "Pfl.Rx.toCFG_wf",
+            "Pfl.RegexReader.parse_repr",
             "Pfl.Rx.nullable_iff",
             "Pfl.Rx.deriv_iff",
             "Pfl.Rx.matches_iff",
